@@ -150,6 +150,9 @@ class Engine(CoreMixin, ExprMixin, CallMixin, StmtMixin, BuiltinMixin):
             if isinstance(kind, str) and kind.startswith("const:"):
                 env[p] = PyC(kind[len("const:"):])
                 continue
+            if isinstance(kind, str) and kind.startswith("class:"):
+                env[p] = PyC(self.spec_names[kind[len("class:"):]])      # the parameter is this class object itself
+                continue
             kcls = None
             exact = False
             if isinstance(kind, str) and kind.startswith("="):
@@ -284,6 +287,22 @@ class Engine(CoreMixin, ExprMixin, CallMixin, StmtMixin, BuiltinMixin):
                 from .core import split_and
                 for part in split_and(sp.compile_bool(contract.returns)):
                     self.obl("post@return", node, st, part, detail=f"ensures {contract.returns}")
+                if contract.ghost.get("result_fresh") or contract.ghost.get("result_fresh_unless"):
+                    # callers assume the result is a new object (they may write to it without a frame obligation): checked here
+                    from .values import CondList as _CL, SDict as _SD
+                    if isinstance(res, SymObj) or isinstance(res, (_CL, _SD)):
+                        fr = TRUE if not (isinstance(res, SymObj) and getattr(res, "escaped_input", False)) else FALSE
+                    elif isinstance(res, PyList):
+                        fr = TRUE if res.fresh else FALSE
+                    elif isinstance(res, Val):
+                        fr = res.fresh if isinstance(res.fresh, str) else (TRUE if res.fresh else FALSE)
+                    else:
+                        fr = FALSE       # a constant object (module global, class, literal): shared, not new
+                    unless = contract.ghost.get("result_fresh_unless")
+                    if unless:
+                        fr = Or(sp.compile_bool(unless), fr)
+                    self.obl("post@return", node, st, fr, detail="the result is a new object (ghost result_fresh"
+                             + (f", unless {unless}" if unless else "") + ")")
                 if "warns" in contract.ghost:
                     want = SpecEval(self, env, glob=fi.glob).compile_bool(contract.ghost["warns"])
                     n = st.ghost.get("warns", 0)
